@@ -279,6 +279,23 @@ def t_opt_kill(facts, res, tier):
             res.inst(key, True, {"mnemonic": mn, "summary": {k: sorted(v) for k, v in summ.items()}})
             if not covers(regvar[r], "always"):
                 res.fail(key, where, "%s changes %s but the optimizer keeps its previous known value of %s (`%s` is not reassigned unconditionally)" % (mn, r, r, regvar[r]))
+            # what the register is *then* believed to hold must not be computed knowledge: nothing (None), the
+            # operand just loaded, or - for a transfer - what the source register is known to hold
+            TRANSFER_SRC = {"TAX": "A", "TAY": "A", "TXA": "X", "TYA": "Y", "TSX": None, "PLA": None}
+            if arm is not None:
+                for n2 in walk(arm["body"]):
+                    if n2.get("k") == "assign" and expr_text(n2["l"]) == regvar[r]:
+                        rt = expr_text(n2["r"]).replace(" ", "")
+                        allowed = rt == "None"
+                        if d["kind"] == "load" and rt.startswith("Some(inst.dasm_operand"):
+                            allowed = True
+                        src = TRANSFER_SRC.get(mn)
+                        if src and rt in (regvar[src] + ".clone()", regvar[src]):
+                            allowed = True
+                        if not allowed:
+                            res.fail("T-OPT-KILL:%s:derived-%s" % (mn, r), facts.where(fn, n2),
+                                     "after %s the optimizer believes %s holds `%s`: knowledge computed by the optimizer itself (e.g. a constant stepped by INX/DEX "
+                                     "without 8-bit wrap-around) instead of nothing, the operand just loaded, or the source register's value" % (mn, r, rt[:60]))
             if r in ("X", "Y"):
                 for o in other[r]:
                     key2 = "T-OPT-KILL:%s:index-%s-in-%s" % (mn, r, o)
@@ -448,8 +465,29 @@ def t_inline_copy(facts, res, tier):
     fields = [f["name"] for f in st["fields"]]
     res.inst("T-INLINE-COPY:struct", True, {"fields": fields})
     if not lits:
-        # clone-and-patch style would be fine too
-        res.note("append_code builds no AsmInstruction literal")
+        # clone-and-patch style: `let mut x = inst.clone(); x.dasm_operand = ..;` copies every other field by construction
+        patched = {}
+        for n in walk(fn["body"]):
+            if n.get("k") == "let" and n.get("init") is not None and re.match(r"^\w+\.clone\(\)$", expr_text(n["init"]).replace(" ", "")):
+                for nm in re.findall(r"\b([a-z_]\w*)\b", pat_text(n["pat"])):
+                    if nm != "mut":
+                        patched[nm] = set()
+        for n in walk(fn["body"]):
+            if n.get("k") in ("assign", "assignop") and n["l"].get("k") == "field":
+                b = n["l"]["base"]
+                if b.get("k") == "path" and len(b["segs"]) == 1 and b["segs"][0] in patched:
+                    patched[b["segs"][0]].add(n["l"]["name"])
+        res.note("append_code builds no AsmInstruction literal; clone-and-patch copies: %s" % {k: sorted(v) for k, v in patched.items()})
+        for f in fields:
+            if f == "dasm_operand":
+                continue
+            key = "T-INLINE-COPY:%s" % f
+            res.inst(key, True, {"field": f, "value": "copied by clone()"})
+            for var, changed in patched.items():
+                if f in changed:
+                    res.fail(key, facts.where(fn), "the cloned instruction's `%s` is overwritten in append_code" % f)
+        if not patched:
+            res.fail("T-INLINE-COPY:ANCHOR-MISSING", facts.where(fn), "append_code neither builds an AsmInstruction literal nor clones and patches one")
     for lit in lits:
         got = {f["name"]: expr_text(f["e"]) for f in lit["fields"]}
         src = None
@@ -495,6 +533,16 @@ def t_inline_labels(facts, res, tier):
                 names = {p["segs"][-1] for p in pats if p.get("k") == "path"}
                 if names and "format" in expr_text(arm["body"]):
                     renamed = names
+    if renamed is None:
+        # guard form: `AsmLine::Instruction(inst) if matches!(inst.mnemonic, BEQ | BNE | ..) => { .. format!(..) .. }`
+        for m in walk(fn["body"]):
+            if m.get("k") == "match":
+                for arm in m["arms"]:
+                    g = arm.get("guard")
+                    if g is not None and "mnemonic" in expr_text(g) and "format" in expr_text(arm["body"]):
+                        names = {x for x in re.findall(r"\b([A-Z]{3})\b", expr_text(g)) if x in MN}
+                        if names:
+                            renamed = names
     want = set(BRANCHES) | {"JMP"}
     res.inst("T-INLINE-LABELS:renamed-mnemonics", True, {"renamed": sorted(renamed or [])})
     if renamed is None:
